@@ -23,6 +23,7 @@ var (
 func checkC10(c *chk.Ctx) {
 	h := newH(c)
 	c.Decided = []string{
+		"R10l an empty (zeroed) record ends the recovery scan silently only above the commit offset",
 		"R10k the commit offset reaches the recovery scan whenever a provider exists (-1 included)",
 		"R10j opening a read-write segment wipes the mapped file behind the entries its recovery accepted: a discarded damaged tail cannot line up again behind a later entry and come back after the next restart",
 		"R10i an offset is only reported synced when a flush that started after it was appended has completed (sync-round rules shared with C01/C03/C04/C08/C09)",
@@ -49,6 +50,7 @@ func checkC10(c *chk.Ctx) {
 	ruleSyncCompletionsCovered(h, "R10i")
 	ruleR10j(h)
 	ruleProviderCommitOffsetReachesRecovery(h, "R10k")
+	ruleEmptyRecordBelowCommit(h, "R10l")
 }
 
 func codecImplMethods(h *H, rule, method string) []*ssa.Function {
